@@ -54,3 +54,5 @@ def run(ctx):
     boundaries.check_calls(ctx, 'C10.RC', 'C10')
     from .. import errdisc
     errdisc.check(ctx, 'C10.RD', 'C10', 22)
+    from .. import boundaries as _b
+    _b.check_predicates(ctx, 'C10.RP', 'C10')
